@@ -161,6 +161,17 @@ def run(chk, ctx):
             writers.append('global %s.%s rebound by %s' % (
                 mod, name, ', '.join(f.short for f in fis)))
     writers.extend(import_time_writers(prog))
+    # positive control: the import-time scan must find the stores of a
+    # small package that has them
+    from .. import controls
+    nctl = controls.with_control_package(
+        ['import_writers/constants.py', 'import_writers/overrides.py'],
+        lambda cprog: len(import_time_writers(cprog)))
+    if nctl < 8:
+        raise AnalysisError('positive control: only %d of 8 import-time '
+                            'stores into the constants were flagged' % nctl)
+    chk.extra['positive_control'] = {
+        'files': 'selftest/controls/import_writers/', 'flagged': nctl}
     chk.ob('C17.C', 'run-time writers of the constants', not writers,
            'no function stores into pamqp.constants' if not writers else
            '; '.join(writers[:3]))
